@@ -1166,7 +1166,17 @@ class FnEmit:
         if op == 'cast': return ['%s = %s;' % (R, em.cast(I.cop, s.tv(I.a), I.ty, s))]
         if op == 'select': return ['%s = %s ? %s : %s;' % (R, s.v(I.c), s.v(I.a), s.v(I.b))]
         if op == 'br': return [s.goto(bl, I.dest)]
-        if op == 'condbr': return ['if (%s) { %s } else { %s }' % (s.v(I.c), s.goto(bl, I.t), s.goto(bl, I.f))]
+        if op == 'condbr':
+            # a loop back edge is emitted as the *else* arm: CBMC executes the deferred arm after unwinding the other one, and
+            # then resolves block-scoped locals of the loop body to the last iteration's instance (spurious values on the exit
+            # path, reported by the C10 harness work); with the exit arm first it runs inside its own iteration
+            order = getattr(s, 'border', None)
+            if order is None:
+                order = s.border = {b: i for i, b in enumerate(s.f.blocks)}
+            back_t = order.get(I.t, 1 << 30) <= order.get(bl, 0); back_f = order.get(I.f, 1 << 30) <= order.get(bl, 0)
+            if back_t and not back_f:
+                return ['if (!(%s)) { %s } else { %s }' % (s.v(I.c), s.goto(bl, I.f), s.goto(bl, I.t))]
+            return ['if (%s) { %s } else { %s }' % (s.v(I.c), s.goto(bl, I.t), s.goto(bl, I.f))]
         if op == 'switch':
             out = []
             for cv, lb in I.cases:
